@@ -623,6 +623,27 @@ def structural(h):
         res = outcome(p.link_arguments, *second)
         h.check(res[0] == "exc" and res[1] == "ValueError", f"c15:link-set-not-refused:{name}", f"link_arguments{second} after {first} was not refused with ValueError: {res[:2]}", None)
         h.nontrivial("structural:" + name)
+    # ... also when the chain runs through a group: the group g is a source, a member of g is made a target (or the other way round); and through a second source
+    def grouped():
+        p = ArgumentParser(exit_on_error=False)
+        p.add_argument("--g.x", type=int, default=1)
+        p.add_argument("--g.y", type=int, default=2)
+        p.add_argument("--t", type=int)
+        p.add_argument("--c", type=int, default=7)
+        p.add_argument("--u", type=int)
+        return p
+    for name, first, second in (("group-is-source,member-made-target", (("g",), "t", nssum), (("c",), "g.x", None)), ("member-is-target,group-made-source", (("c",), "g.x", None), (("g",), "t", nssum)),
+                                ("member-is-source,group-member-chain", (("g.x",), "t", None), (("t",), "u", None)), ("second-source-made-target", (("c", "g.y"), "t", add), (("u",), "g.y", None))):
+        p = grouped()
+        p.link_arguments(first[0] if len(first[0]) > 1 else first[0][0], first[1], compute_fn=first[2])
+        res = outcome(p.link_arguments, second[0] if len(second[0]) > 1 else second[0][0], second[1], compute_fn=second[2])
+        h.check(res[0] == "exc" and res[1] == "ValueError", f"c15:link-set-not-refused:{name}", f"link {second[0]} -> {second[1]} after {first[0]} -> {first[1]} was not refused with ValueError: {res[:2]}", None)
+        h.nontrivial("structural:" + name)
+    # members of one group that do not feed each other may be linked freely
+    p = grouped()
+    p.link_arguments("g.x", "t")
+    res = outcome(p.link_arguments, "c", "g.y")
+    h.check(res[0] == "ok", "c15:link-set-refused:sibling-members", f"a link into g.y was refused although only g.x is a source: {res[:3]}", None)
     p = fresh()
     res = outcome(p.link_arguments, ("a", "b"), "t")
     h.check(res[0] == "exc" and res[1] == "ValueError", "c15:link-set-not-refused:multi-source-without-fn", f"several sources without a compute function were accepted: {res[:2]}", None)
